@@ -39,6 +39,11 @@ class Unit:
     tiers: tuple = ("quick", "thorough")
 
 
+def conformance_unit(pid: str) -> "Unit":
+    """validation of the symtorch kernel models against real torch (run with every shadow check)"""
+    return Unit(f"{pid}/conformance(symtorch vs torch)", "engine.conformance", "run", (SEED,), engine="spec", timeout_s=600)
+
+
 def ob(name, status, engine="shadow", **kw) -> dict:
     d = {"name": name, "status": status, "engine": engine}
     d.update(kw)
